@@ -378,7 +378,15 @@ S.index_select = lambda a, dim, index: _index_select(a, dim, index)
 S.gather = lambda a, dim, index: gather(a, dim, index)
 S.requires_grad_ = lambda a, flag=True: (setattr(a, "requires_grad", flag), a)[1]
 S.detach_ = lambda a: (setattr(a, "requires_grad", False), a)[1]
-S.squeeze_ = lambda a, *d: (_ for _ in ()).throw(Unsupported("squeeze_"))
+def _reshape_inplace(a, v):
+    """in-place shape change (unsqueeze_/squeeze_/transpose_): the SAME tensor object now is that view"""
+    a._shape, a._fwd, a._inv, a._contig = v._shape, v._fwd, v._inv, v._contig
+    sym.ctx().event("inplace-shape", {"storage": a.storage.id, "owner": a.storage.owner, "label": a.storage.label, "op": "reshape_"})
+    return a
+
+
+S.unsqueeze_ = lambda a, d: _reshape_inplace(a, O.unsqueeze(a, d))
+S.squeeze_ = lambda a, *d: _reshape_inplace(a, O.squeeze(a, *d))
 S.flip = lambda a, *dims: flip(a, dims[0] if len(dims) == 1 and isinstance(dims[0], (tuple, list)) else dims)
 S.norm = lambda a, p=2, dim=None, keepdim=False: norm(a, p, dim, keepdim)
 S.prod = lambda a, dim=None, keepdim=False: prod(a, dim, keepdim)
@@ -440,7 +448,7 @@ S.masked_fill_ = masked_fill_
 
 
 def transpose_(a, d0, d1):
-    raise Unsupported("transpose_")
+    return _reshape_inplace(a, O.transpose(a, d0, d1))
 
 
 S.transpose_ = transpose_
